@@ -283,7 +283,7 @@ Proof.
   - (* call *) unfold on_call.
     repeat match goal with |- context [if ?c then _ else _] => destruct c end;
       try exact HJ; cbn [fst hok].
-    + unfold on_look_to. destruct (check_start_row w && check_bells w _); [|exact HJ].
+    + unfold on_look_to. cbv zeta. destruct (check_start_row w && check_bells w _); [|exact HJ].
       apply look_to_J; auto.
     + apply on_go_J; exact HJ.
   - eapply same_J_Jw; [apply on_bell_rung_same | exact HJ].
@@ -538,3 +538,145 @@ Qed.
 Lemma go_during_method_is_noop w :
   b_rounds_flag (w_bot w) = false -> b_opening_flag (w_bot w) = false -> on_go w = w.
 Proof. intros A B. unfold on_go. now rewrite A, B. Qed.
+
+(* ------------------------------------------------------------------ C20: the system's tower view is the tower fold *)
+From Wh Require Import Tower.
+Definition tmsg_of (m : msg) : option tmsg :=
+  match m with
+  | MBellRung s who => Some (TBellRung s who)
+  | MGlobalState s => Some (TGlobal s)
+  | MUserEntered u n => Some (TUserEntered u n)
+  | MUserList l => Some (TUserList l)
+  | MUserLeft u => Some (TUserLeft u)
+  | MAssign b u => Some (TAssign b u)
+  | MSizeChange n => Some (TSizeChange n)
+  | _ => None
+  end.
+
+Lemma bot_on_size_change_tower w : w_tower (fst (bot_on_size_change w)) = w_tower w.
+Proof.
+  unfold bot_on_size_change.
+  destruct (generate_starting_row _ _) as [opening|e]; [|reflexivity].
+  destruct (rounds (N_of w)) as [rd|e]; [|reflexivity].
+  cbn [fst hok]. destruct (b_next_gen _) as [g|]; [|reflexivity].
+  destruct (check_bells _ g); reflexivity.
+Qed.
+
+Lemma handle_tower nested w m tm :
+  tmsg_of m = Some tm -> w_tower (fst (handle nested w m)) = tower_step (w_tower w) tm.
+Proof.
+  destruct m; cbn [tmsg_of]; intros H; inversion H; subst; cbn [handle tower_step].
+  - unfold on_bell_rung. destruct (negb (bell_ok who)); [reflexivity|].
+    cbn. destruct (tw_get_stroke _ who); [|reflexivity].
+    destruct (user_assigned _ who); [|reflexivity].
+    destruct (rh_on_bell _ _ _ _) as [r [e|]]; reflexivity.
+  - now rewrite bot_on_size_change_tower.
+  - reflexivity.
+  - reflexivity.
+  - reflexivity.
+  - destruct (tw_assign (w_tower w) bell uid); reflexivity.
+  - destruct (tw_size_change (w_tower w) n) as [t fire]. destruct fire; cbn [fst]; [|reflexivity].
+    now rewrite bot_on_size_change_tower.
+Qed.
+
+(* ------------------------------------------------------------------ C17: tower size vs stage *)
+Definition gen_to_ring (w : world) : gen :=
+  match b_next_gen (w_bot w) with Some g => g | None => b_gen (w_bot w) end.
+
+(* the gate, spelt out *)
+Lemma gate_iff w :
+  check_start_row w && check_bells w (gen_to_ring w) = true <->
+  length (b_opening_row (w_bot w)) = N_of w /\ g_stage (gen_to_ring w) <> 0 /\ g_stage (gen_to_ring w) <= N_of w.
+Proof.
+  unfold check_start_row, check_bells. rewrite !Bool.andb_true_iff, !Bool.negb_true_iff.
+  rewrite Nat.eqb_eq, Nat.eqb_neq, Nat.ltb_ge. tauto.
+Qed.
+
+(* a refused Look to changes nothing and emits nothing *)
+Lemma refused_look_to_is_silent nested w :
+  check_start_row w && check_bells w (gen_to_ring w) = false -> on_look_to nested w = (w, None).
+Proof. intros H. unfold on_look_to. cbv zeta. fold (gen_to_ring w). now rewrite H. Qed.
+
+Lemma accepted_look_to nested w :
+  check_start_row w && check_bells w (gen_to_ring w) = true ->
+  on_look_to nested w = look_to_has_been_called nested w (w_now w).
+Proof. intros H. unfold on_look_to. cbv zeta. fold (gen_to_ring w). now rewrite H. Qed.
+
+(* a size change recomputes the opening row and rounds for the new size, and drops a queued
+   generator exactly when it does not fit *)
+Lemma size_change_recomputes w w' :
+  bot_on_size_change w = (w', None) ->
+  generate_starting_row (N_of w) (match g_custom (b_gen (w_bot w)) with Some r => Some (Some r) | None => None end)
+    = Ok (b_opening_row (w_bot w'))
+  /\ rounds (N_of w) = Ok (b_rounds (w_bot w'))
+  /\ b_gen (w_bot w') = b_gen (w_bot w)
+  /\ b_next_gen (w_bot w') =
+       match b_next_gen (w_bot w) with
+       | Some g => if negb (g_stage g =? 0) && negb (N_of w <? g_stage g) then Some g else None
+       | None => None
+       end.
+Proof.
+  unfold bot_on_size_change.
+  destruct (generate_starting_row _ _) as [opening|e]; [|intros H; inversion H].
+  destruct (rounds (N_of w)) as [rd|e]; [|intros H; inversion H].
+  cbn [hok].
+  set (w1 := upd_bot (upd_bot w _) _).
+  assert (E1 : b_next_gen (w_bot w1) = b_next_gen (w_bot w)) by reflexivity.
+  assert (E2 : N_of w1 = N_of w) by reflexivity.
+  rewrite E1. destruct (b_next_gen (w_bot w)) as [g|] eqn:NG.
+  - unfold check_bells. rewrite E2.
+    destruct (negb (g_stage g =? 0) && negb (N_of w <? g_stage g)) eqn:F;
+      intros H; inversion H; subst; cbn; auto.
+  - intros H; inversion H; subst; cbn. auto.
+Qed.
+
+(* covers: a method row shorter than the opening row is extended with the opening row's tail *)
+Lemma covers_in_order w w' g' r cs :
+  b_opening_flag (w_bot w) = false -> b_rounds_flag (w_bot w) = false ->
+  gen_next (b_gen (w_bot w)) (stroke_of_row (b_row_number (w_bot w))) = Ok (g', (r, cs)) ->
+  generate_next_row w = (w', None) ->
+  b_row (w_bot w') = if length r <? length (b_opening_row (w_bot w))
+                     then r ++ skipn (length r) (b_opening_row (w_bot w)) else r.
+Proof.
+  intros A B E. unfold generate_next_row. rewrite A, B, E. intros H. inversion H; subst. reflexivity.
+Qed.
+
+(* opening rows: a start row that is a permutation of 1..k, in a tower of n bells, gives a row of
+   max n k bells: the custom row followed by the missing bells in ascending order *)
+Lemma add_missing_app a b : forall r, add_missing (a ++ b) r = add_missing b (add_missing a r).
+Proof. induction a as [|x a IH]; intros r; cbn [app add_missing]; [reflexivity|apply IH]. Qed.
+
+Lemma add_missing_In cands : forall r x, In x (add_missing cands r) <-> In x r \/ In x cands.
+Proof.
+  induction cands as [|c cands IH]; intros r x; cbn [add_missing].
+  - cbn. tauto.
+  - rewrite IH. destruct (mem_nat c r) eqn:M.
+    + apply mem_nat_In in M. cbn. split; [tauto|]. intros [H|[->|H]]; auto.
+    + rewrite in_app_iff. cbn. tauto.
+Qed.
+
+Lemma opening_row_length n k r :
+  NoDup r -> (forall x, In x r <-> 1 <= x <= k) ->
+  length (add_missing (seq1 n) r) = Nat.max n (length r) /\ length r = k.
+Proof.
+  intros ND HI.
+  assert (Lk : length r = k).
+  { apply Nat.le_antisymm.
+    - rewrite <- (seq1_length k). apply NoDup_incl_length; [exact ND|].
+      intros x Hx. apply seq1_In. now apply HI.
+    - rewrite <- (seq1_length k) at 1. apply NoDup_incl_length; [apply seq1_NoDup|].
+      intros x Hx. apply HI. now apply seq1_In. }
+  split; [|exact Lk]. rewrite Lk.
+  induction n as [|n IH]; cbn [seq1 add_missing]; [lia|].
+  rewrite add_missing_app. cbn [add_missing].
+  destruct (mem_nat (S n) (add_missing (seq1 n) r)) eqn:M.
+  - apply mem_nat_In, add_missing_In in M. destruct M as [M|M].
+    + apply HI in M. lia.
+    + apply seq1_In in M. lia.
+  - rewrite app_length, IH. cbn [length].
+    assert (~ In (S n) r).
+    { intros Hin. assert (In (S n) (add_missing (seq1 n) r)) by (apply add_missing_In; now left).
+      apply mem_nat_In in H. congruence. }
+    assert (k <= n) by (destruct (le_lt_dec k n); auto; exfalso; apply H; apply HI; lia).
+    lia.
+Qed.
